@@ -656,6 +656,31 @@ func TestC20(t *testing.T) {
 							rep.Violation(fmt.Sprintf("wrong-FileHash:backend=%s:algo=%s%s", wy.name, algo, call), map[string]any{"path": p, "len": l, "round": round, "got": got, "want": want, "err": fmt.Sprint(err)})
 						}
 					}
+					// a handle that was already used: one read into a buffer of 512 bytes (sniffing the content type), a rewind,
+					// then the hasher is given the handle. On a fresh mount of its own where the way has one
+					if l > 0 {
+						hfs, hunmount := wfs, func() {}
+						if wy.mount != nil {
+							hfs, hunmount = wy.mount()
+						}
+						if hfs != nil {
+							if f, oerr := hfs.GenericOpen(p); oerr == nil {
+								_, _ = f.Read(make([]byte, 512))
+								if _, serr := f.Seek(0, io.SeekStart); serr == nil {
+									if fh, herr := filesystem.NewFileHash(algo); herr == nil {
+										got, err := fh.Calculate(f)
+										fileCases++
+										transitions.Add(1)
+										if err != nil || got != want {
+											rep.Violation(fmt.Sprintf("wrong-file-digest:backend=%s:algo=%s:handle=read-once-then-rewound", wy.name, algo), map[string]any{"path": p, "len": l, "got": got, "want": want, "err": fmt.Sprint(err)})
+										}
+									}
+								}
+								_ = f.Close()
+							}
+							hunmount()
+						}
+					}
 					if fh, err := filesystem.NewFileHash(algo); err == nil {
 						got, err := fh.CalculateFile(wfs, p)
 						if err != nil || got != want {
